@@ -815,3 +815,47 @@ type swapLink struct{ t iso7816.Transceiver }
 func (l *swapLink) Transceive(cla, ins, p1, p2 int, data []byte, le int, encoded []byte) []byte {
 	return l.t.Transceive(cla, ins, p1, p2, data, le, encoded)
 }
+
+// TestPACECorrectedPassword: one password object over two attempts.  Its data is corrected (or
+// replaced by wrong data) in place between the attempts - the fields are exported and the object is
+// the caller's: the attempt with the right data must open the chip, the one with the wrong data must
+// fail closed, in either order.
+func TestPACECorrectedPassword(t *testing.T) {
+	evid.RapidCheck(t, 320, 8000, func(rt *rapid.T) {
+		c := drawCase(rt, false)
+		c.PwKind = 2
+		c.Deviation = "password-object-reused"
+		wrongCAN := rapid.StringMatching(`[0-9]{6}`).Draw(rt, "wrongCan")
+		if wrongCAN == c.CAN {
+			rt.Skip("same CAN")
+		}
+		wrongFirst := rapid.Bool().Draw(rt, "wrong-first")
+		first, second := c.CAN, wrongCAN
+		if wrongFirst {
+			first, second = wrongCAN, c.CAN
+		}
+		pass := password.NewPasswordCan(first)
+		b1, b2 := build(c, nil), build(c, nil)
+		b2.chip.Cfg.Rand = detrand.New(append([]byte("second"), c.ChipSeed...)).Bytes
+		o1 := runPACE(b1, pass, c.LibSeed)
+		pass.Password = second // corrected / replaced in place
+		o2 := runPACE(b2, pass, append([]byte("2"), c.LibSeed...))
+		rep := c.repro()
+		rep["firstCAN"], rep["secondCAN"] = first, second
+		evid.Case(map[bool]string{true: "password-corrected-in-place", false: "password-replaced-in-place"}[wrongFirst], true, c.key()+first+second, rep)
+		good, goodChip, bad := o1, b1, o2
+		if wrongFirst {
+			good, goodChip, bad = o2, b2, o1
+		}
+		if f5Excluded(slices(goodChip)) {
+			evid.Excluded(f5)
+			return
+		}
+		if msg := checkInterop(c, goodChip, good); msg != "" {
+			evid.Fail(rt, "password-reuse", rep, "attempt with the correct CAN (%s attempt of the same password object): %s", map[bool]string{true: "second", false: "first"}[wrongFirst], msg)
+		}
+		if msg := checkClosed(bad); msg != "" {
+			evid.Fail(rt, "password-reuse", rep, "attempt with a wrong CAN (%s attempt of the same password object): %s", map[bool]string{true: "first", false: "second"}[wrongFirst], msg)
+		}
+	})
+}
